@@ -6,6 +6,7 @@ import GB.C20.ProofsStMain
 import GB.C20.ProofsVerb
 import GB.C20.ProofsLegalMain
 import GB.C20.ProofsStSoundMain
+import GB.C20.ProofsGwSoundMain
 import GB.Generated.Facts
 /-
   C20 — property theorems. Helper lemmas live in Proofs*.lean.
@@ -167,6 +168,25 @@ theorem C20_gw_rejects_partial (s : Bytes)
 
 /-- the hypotheses are satisfiable: "/a:b c" (a space in the verb) is such a string, and was accepted before D22 -/
 example : illegalChar [47, 97, 58, 98, 32, 99] = true := by decide
+
+/-- **gwbased soundness w.r.t. the relaxed grammar** (`**` anywhere): whatever `Parse` (with the exact "/"
+    matching the fixed code sets) accepts is the print of a template that is well-formed in the relaxed grammar,
+    and the verb it returns is that template's verb. Same synchronisation invariant as for the strict parser;
+    the verb cut off by `tokenize` is put back with `validE_replace_last`. -/
+theorem C20_gw_sound (s : Bytes) (g : GwTemplate) (h : gwParse s = .ok g) :
+    ∃ t, DerivesRelaxed s t ∧ g.verb = t.verbStr := by
+  obtain ⟨t, h1, h2, h3⟩ := gwParse_sound s g h
+  exact ⟨t, ⟨h1, h2⟩, h3⟩
+
+/-- **gwbased accepts exactly the relaxed grammar's language**, for all byte strings. -/
+theorem C20_gw_exact_relaxed (s : Bytes) : (∃ g, gwParse s = .ok g) ↔ (∃ t, DerivesRelaxed s t) := by
+  constructor
+  · rintro ⟨g, h⟩
+    obtain ⟨t, ht, _⟩ := C20_gw_sound s g h
+    exact ⟨t, ht⟩
+  · rintro ⟨t, ht⟩
+    obtain ⟨g, h, _⟩ := C20_gw_complete_relaxed s t ht
+    exact ⟨g, h⟩
 
 /-! ### strict parser -/
 
